@@ -424,6 +424,29 @@ class Proto:
         summ = frozenset(exits)
         self.summ[fn.name] = summ
 
+    def _debug_only(self, fn):
+        """Blocks that only execute when cfg!(debug_assertions): between the true edge of the `if cfg!(debug_assertions)` test that
+        debug_assert! expands to and the point where it rejoins the other edge.  (The asserted condition itself carries the user's
+        span, so it cannot be recognised by its span.)"""
+        cache = getattr(self, '_dbg_cache', None)
+        if cache is None:
+            cache = self._dbg_cache = {}
+        if fn.name in cache:
+            return cache[fn.name]
+        res = set()
+        for bb, b in enumerate(fn.blocks):
+            t = b['term']
+            if t and t['k'] == 'switch' and 'cfg<debug_assert' in (t['sp'].get('mac') or ''):
+                false_t = [tb for v, tb in t['targets'] if v == '0']
+                true_t = t['otherwise']
+                if not false_t:
+                    continue
+                r_false = fn.reachable_blocks(false_t[0])
+                r_true = fn.reachable_blocks(true_t)
+                res |= (r_true - r_false)
+        cache[fn.name] = res
+        return res
+
     # -- helpers for the interpreter ----------------------------------------------------
     def _enter_region(self, st):
         if st.T == 'H' and st.P is not None:
@@ -711,7 +734,7 @@ class Proto:
         dl = d['pl']['l'] if d['k'] in ('copy', 'move') and not d['pl']['p'] else None
         # debug_assert!: never refine on it (release builds do not have it)
         mac = (t['sp'].get('mac') or '')
-        no_refine = 'debug_assert' in mac
+        no_refine = 'debug_assert' in mac or bb in self._debug_only(fn)
         edges = [(val, tgt) for val, tgt in t['targets']] + [('otherwise', t['otherwise'])]
         listed = [val for val, _ in t['targets']]
         out = []
